@@ -809,3 +809,559 @@ class MiniInterp:
                 self.assign(x, y)
         else:
             raise AnalysisError(f"mini-interpreter: assignment target not modelled: {src(t)}")
+
+
+# ==== a small concrete interpreter for Python function bodies (finite-domain evaluation) ===========================
+# It never imports or runs repository code: repository functions / classes are *interpreted* from their AST over
+# model values supplied by the rule (plain data, stdlib objects such as string.Formatter, and Tok / model objects).
+import builtins as _bi
+import operator as _op
+
+
+class _Signal(BaseException):
+    pass
+
+
+class _Ret(_Signal):
+    def __init__(self, value):
+        self.value = value
+
+
+class _Brk(_Signal):
+    pass
+
+
+class _Cnt(_Signal):
+    pass
+
+
+class Obj:
+    """Instance of an interpreted repository class."""
+
+    def __init__(self, cls):
+        self.cls = cls
+        self.attrs: Dict[str, object] = {}
+
+    def __repr__(self):
+        return f"<{self.cls.node.name} {self.attrs!r}>"
+
+
+class Func:
+    def __init__(self, interp, node, scopes, name=None):
+        self.interp, self.node, self.scopes = interp, node, scopes
+        self.name = name or getattr(node, "name", "<lambda>")
+
+    def __call__(self, *args, **kwargs):
+        return self.interp.call_func(self, list(args), dict(kwargs))
+
+    def __repr__(self):
+        return f"<func {self.name}>"
+
+
+class BoundMethod:
+    def __init__(self, obj, func):
+        self.obj, self.func = obj, func
+
+    def __call__(self, *args, **kwargs):
+        return self.func.interp.call_func(self.func, [self.obj] + list(args), dict(kwargs))
+
+    def __eq__(self, other):
+        return isinstance(other, BoundMethod) and other.obj is self.obj and other.func.node is self.func.node
+
+    def __hash__(self):
+        return hash((id(self.obj), id(self.func.node)))
+
+
+class ClassVal:
+    def __init__(self, interp, node, scopes):
+        self.interp, self.node, self.scopes = interp, node, scopes
+        self.methods = {n.name: n for n in node.body if isinstance(n, (ast.FunctionDef, ast.AsyncFunctionDef))}
+        self.consts = {}
+        for n in node.body:
+            if isinstance(n, ast.Assign) and len(n.targets) == 1 and isinstance(n.targets[0], ast.Name) and isinstance(n.value, ast.Constant):
+                self.consts[n.targets[0].id] = n.value.value
+        self.is_dataclass = any((dotted(d) or dotted(getattr(d, "func", d)) or "").split(".")[-1] == "dataclass" for d in node.decorator_list)
+
+    def bases(self):
+        out = []
+        for b in self.node.bases:
+            try:
+                v = self.interp.lookup(b.id, self.scopes) if isinstance(b, ast.Name) else None
+            except AnalysisError:
+                v = None
+            if isinstance(v, ClassVal):
+                out.append(v)
+        return out
+
+    def find(self, name):
+        if name in self.methods:
+            return Func(self.interp, self.methods[name], self.scopes, f"{self.node.name}.{name}")
+        for b in self.bases():
+            r = b.find(name)
+            if r is not None:
+                return r
+        return None
+
+    def __call__(self, *args, **kwargs):
+        obj = Obj(self)
+        if self.is_dataclass and "__init__" not in self.methods:
+            fields = [n for n in self.node.body if isinstance(n, ast.AnnAssign) and isinstance(n.target, ast.Name)]
+            args = list(args)
+            for fdef in fields:
+                nm = fdef.target.id
+                if args:
+                    obj.attrs[nm] = args.pop(0)
+                elif nm in kwargs:
+                    obj.attrs[nm] = kwargs.pop(nm)
+                elif fdef.value is None:
+                    raise AnalysisError(f"interp: dataclass field {nm} not supplied")
+                elif isinstance(fdef.value, ast.Call) and (dotted(fdef.value.func) or "").split(".")[-1] == "field":
+                    kw = {k.arg: k.value for k in fdef.value.keywords}
+                    if "default_factory" in kw:
+                        obj.attrs[nm] = self.interp.ev(kw["default_factory"], self.scopes)()
+                    elif "default" in kw:
+                        obj.attrs[nm] = self.interp.ev(kw["default"], self.scopes)
+                else:
+                    obj.attrs[nm] = self.interp.ev(fdef.value, self.scopes)
+            return obj
+        init = self.find("__init__")
+        if init is not None:
+            self.interp.call_func(init, [obj] + list(args), dict(kwargs))
+        return obj
+
+
+_BINOPS = {ast.Add: _op.add, ast.Sub: _op.sub, ast.Mult: _op.mul, ast.Div: _op.truediv, ast.FloorDiv: _op.floordiv, ast.Mod: _op.mod,
+           ast.Pow: _op.pow, ast.BitOr: _op.or_, ast.BitAnd: _op.and_, ast.BitXor: _op.xor, ast.LShift: _op.lshift, ast.RShift: _op.rshift}
+_CMPOPS = {ast.Eq: _op.eq, ast.NotEq: _op.ne, ast.Lt: _op.lt, ast.LtE: _op.le, ast.Gt: _op.gt, ast.GtE: _op.ge,
+           ast.Is: _op.is_, ast.IsNot: _op.is_not, ast.In: lambda a, b: a in b, ast.NotIn: lambda a, b: a not in b}
+_SAFE_BUILTIN_NAMES = ("len str repr ascii format int float bool list dict tuple set frozenset range enumerate zip min max sum sorted "
+                       "reversed abs callable getattr hasattr iter next any all map filter id bytes bytearray ord chr divmod round "
+                       "BaseException Exception TypeError ValueError KeyError IndexError AttributeError RuntimeError LookupError "
+                       "StopIteration UnicodeDecodeError UnicodeError OverflowError ZeroDivisionError KeyboardInterrupt "
+                       "NotImplementedError AssertionError ArithmeticError OSError").split()
+
+
+class Interp:
+    def __init__(self, globals_: Optional[Dict[str, object]] = None, budget: int = 200000):
+        self.globals: Dict[str, object] = {n: getattr(_bi, n) for n in _SAFE_BUILTIN_NAMES}
+        self.globals.update({"cast": lambda t, v: v, "isinstance": self._isinstance, "type": self._type, "object": object, "super": None})
+        self.globals.update(globals_ or {})
+        self.budget = budget
+        self.log: List[tuple] = []
+
+    # ---- setup ------------------------------------------------------------------------------------------------
+    def load(self, mod, only=None):
+        """Register the top-level functions / classes of a parsed module as interpreted values."""
+        for n in mod.tree.body:
+            if isinstance(n, (ast.FunctionDef, ast.AsyncFunctionDef)) and (only is None or n.name in only):
+                self.globals[n.name] = Func(self, n, [], n.name)
+            elif isinstance(n, ast.ClassDef) and (only is None or n.name in only):
+                self.globals[n.name] = ClassVal(self, n, [])
+
+    def func(self, node, scopes=None):
+        return Func(self, node, scopes or [])
+
+    def _isinstance(self, v, t):
+        ts = t if isinstance(t, tuple) else (t,)
+        for x in ts:
+            if isinstance(x, ClassVal):
+                if isinstance(v, Obj):
+                    stack = [v.cls]
+                    while stack:
+                        c = stack.pop()
+                        if c.node is x.node:
+                            return True
+                        stack.extend(c.bases())
+            elif isinstance(x, type) and isinstance(v, x):
+                return True
+        return False
+
+    def _type(self, v):
+        return v.cls if isinstance(v, Obj) else type(v)
+
+    def tick(self):
+        self.budget -= 1
+        if self.budget < 0:
+            raise Nonterminating()
+
+    def lookup(self, name, scopes):
+        for s in reversed(scopes):
+            if name in s:
+                return s[name]
+        if name in self.globals:
+            return self.globals[name]
+        raise AnalysisError(f"interp: name {name} is not modelled")
+
+    # ---- calls ------------------------------------------------------------------------------------------------------
+    def call_func(self, f: Func, args, kwargs):
+        self.tick()
+        node = f.node
+        a = node.args
+        local: Dict[str, object] = {}
+        pos = [p.arg for p in a.posonlyargs + a.args]
+        args = list(args)
+        for nm in pos:
+            if args:
+                local[nm] = args.pop(0)
+        if args:
+            if a.vararg is None:
+                raise TypeError(f"{f.name}() takes {len(pos)} positional arguments")
+            local[a.vararg.arg] = tuple(args)
+        elif a.vararg is not None:
+            local[a.vararg.arg] = ()
+        kwonly = [p.arg for p in a.kwonlyargs]
+        extra = {}
+        for k, v in kwargs.items():
+            if k in pos[len(a.posonlyargs):] or k in kwonly:
+                if k in local:
+                    raise TypeError(f"{f.name}() got multiple values for {k}")
+                local[k] = v
+            else:
+                extra[k] = v
+        if extra:
+            if a.kwarg is None:
+                raise TypeError(f"{f.name}() got unexpected keyword {sorted(extra)}")
+            local[a.kwarg.arg] = extra
+        elif a.kwarg is not None:
+            local[a.kwarg.arg] = {}
+        defaults = dict(zip(pos[len(pos) - len(a.defaults):], a.defaults))
+        defaults.update({p: d for p, d in zip(kwonly, a.kw_defaults) if d is not None})
+        for nm in pos + kwonly:
+            if nm not in local:
+                if nm not in defaults:
+                    raise TypeError(f"{f.name}() missing argument {nm}")
+                local[nm] = self.ev(defaults[nm], f.scopes)
+        scopes = f.scopes + [local]
+        if isinstance(node, ast.Lambda):
+            return self.ev(node.body, scopes)
+        try:
+            self.block(node.body, scopes)
+        except _Ret as r:
+            return r.value
+        return None
+
+    # ---- statements -----------------------------------------------------------------------------------------------------
+    def block(self, stmts, scopes):
+        for st in stmts:
+            self.stmt(st, scopes)
+
+    def stmt(self, st, scopes):
+        self.tick()
+        if isinstance(st, ast.Expr):
+            if not isinstance(st.value, ast.Constant):
+                self.ev(st.value, scopes)
+        elif isinstance(st, ast.Return):
+            raise _Ret(self.ev(st.value, scopes) if st.value is not None else None)
+        elif isinstance(st, ast.Assign):
+            v = self.ev(st.value, scopes)
+            for t in st.targets:
+                self.assign(t, v, scopes)
+        elif isinstance(st, ast.AnnAssign):
+            if st.value is not None:
+                self.assign(st.target, self.ev(st.value, scopes), scopes)
+        elif isinstance(st, ast.AugAssign):
+            cur = self.ev(_load(st.target), scopes)
+            self.assign(st.target, _BINOPS[type(st.op)](cur, self.ev(st.value, scopes)), scopes)
+        elif isinstance(st, ast.If):
+            self.block(st.body if self.ev(st.test, scopes) else st.orelse, scopes)
+        elif isinstance(st, ast.While):
+            broke = False
+            while self.ev(st.test, scopes):
+                self.tick()
+                try:
+                    self.block(st.body, scopes)
+                except _Brk:
+                    broke = True
+                    break
+                except _Cnt:
+                    continue
+            if not broke:
+                self.block(st.orelse, scopes)
+        elif isinstance(st, ast.For):
+            broke = False
+            for v in self.ev(st.iter, scopes):
+                self.tick()
+                self.assign(st.target, v, scopes)
+                try:
+                    self.block(st.body, scopes)
+                except _Brk:
+                    broke = True
+                    break
+                except _Cnt:
+                    continue
+            if not broke:
+                self.block(st.orelse, scopes)
+        elif isinstance(st, ast.Break):
+            raise _Brk()
+        elif isinstance(st, ast.Continue):
+            raise _Cnt()
+        elif isinstance(st, ast.Pass):
+            pass
+        elif isinstance(st, (ast.FunctionDef, ast.AsyncFunctionDef)):
+            if st.decorator_list:
+                raise AnalysisError(f"interp: decorated nested function {st.name}")
+            scopes[-1][st.name] = Func(self, st, scopes, st.name)
+        elif isinstance(st, ast.Raise):
+            if st.exc is None:
+                raise AnalysisError("interp: bare raise")
+            e = self.ev(st.exc, scopes)
+            if isinstance(e, type) and issubclass(e, BaseException):
+                e = e()
+            if not isinstance(e, BaseException):
+                raise AnalysisError(f"interp: raising a non-exception {src(st.exc)}")
+            raise e
+        elif isinstance(st, ast.Try):
+            try:
+                try:
+                    self.block(st.body, scopes)
+                except (_Signal, AnalysisError, Nonterminating):
+                    raise
+                except BaseException as e:  # noqa: B902 - interpreted handlers decide
+                    for h in st.handlers:
+                        if h.type is None or self._matches(e, self.ev(h.type, scopes)):
+                            if h.name:
+                                scopes[-1][h.name] = e
+                            self.block(h.body, scopes)
+                            break
+                    else:
+                        raise
+                else:
+                    self.block(st.orelse, scopes)
+            finally:
+                if st.finalbody:
+                    self.block(st.finalbody, scopes)
+        elif isinstance(st, ast.Assert):
+            if not self.ev(st.test, scopes):
+                raise AssertionError(src(st.test))
+        elif isinstance(st, ast.Delete):
+            for t in st.targets:
+                if isinstance(t, ast.Subscript):
+                    del self.ev(t.value, scopes)[self.ev(t.slice, scopes)]
+                elif isinstance(t, ast.Name):
+                    scopes[-1].pop(t.id, None)
+                else:
+                    raise AnalysisError(f"interp: del {src(t)}")
+        elif isinstance(st, (ast.Import, ast.ImportFrom, ast.Global, ast.Nonlocal)):
+            pass
+        else:
+            raise AnalysisError(f"interp: statement not modelled: {src(st)[:60]}")
+
+    @staticmethod
+    def _matches(e, t):
+        ts = t if isinstance(t, tuple) else (t,)
+        return any(isinstance(x, type) and isinstance(e, x) for x in ts)
+
+    def assign(self, t, v, scopes):
+        if isinstance(t, ast.Name):
+            scopes[-1][t.id] = v
+        elif isinstance(t, ast.Attribute):
+            o = self.ev(t.value, scopes)
+            if isinstance(o, Obj):
+                o.attrs[t.attr] = v
+                self.log.append(("setattr", o, t.attr, v))
+            elif isinstance(o, Tok) or getattr(o, "_interp_mutable", False):
+                setattr(o, t.attr, v)
+            else:
+                raise AnalysisError(f"interp: attribute assignment on {type(o).__name__}: {src(t)}")
+        elif isinstance(t, ast.Subscript):
+            self.ev(t.value, scopes)[self.ev(t.slice, scopes)] = v
+        elif isinstance(t, (ast.Tuple, ast.List)):
+            vs = list(v)
+            if any(isinstance(x, ast.Starred) for x in t.elts):
+                raise AnalysisError("interp: starred unpacking")
+            if len(vs) != len(t.elts):
+                raise ValueError("unpack arity")
+            for x, y in zip(t.elts, vs):
+                self.assign(x, y, scopes)
+        else:
+            raise AnalysisError(f"interp: assignment target {src(t)}")
+
+    # ---- expressions -----------------------------------------------------------------------------------------------------
+    def getattr_(self, o, name, node=None):
+        if isinstance(o, Obj):
+            if name in o.attrs:
+                return o.attrs[name]
+            f = o.cls.find(name)
+            if f is not None:
+                return BoundMethod(o, f)
+            stack = [o.cls]
+            while stack:
+                c = stack.pop(0)
+                if name in c.consts:
+                    return c.consts[name]
+                stack.extend(c.bases())
+            if name == "__class__":
+                return o.cls
+            raise AttributeError(f"{o.cls.node.name} object has no attribute {name}")
+        if isinstance(o, ClassVal):
+            f = o.find(name)
+            if f is not None:
+                return f
+            if name in o.consts:
+                return o.consts[name]
+            if name == "__name__":
+                return o.node.name
+            raise AttributeError(name)
+        if isinstance(o, (Func, BoundMethod)):
+            if name in ("__name__", "__qualname__"):
+                return (o.name if isinstance(o, Func) else o.func.name)
+            raise AnalysisError(f"interp: attribute {name} of a function")
+        if name.startswith("__") and name not in ("__name__", "__class__", "__getitem__", "__contains__", "__len__", "__iter__", "__dict__", "__module__"):
+            raise AnalysisError(f"interp: dunder attribute {name} on a native value")
+        return getattr(o, name)
+
+    def ev(self, e, scopes):
+        if isinstance(e, ast.Constant):
+            return e.value
+        if isinstance(e, ast.Name):
+            return self.lookup(e.id, scopes)
+        if isinstance(e, ast.Attribute):
+            return self.getattr_(self.ev(e.value, scopes), e.attr, e)
+        if isinstance(e, ast.Subscript):
+            v = self.ev(e.value, scopes)
+            return v[self.ev(e.slice, scopes)]
+        if isinstance(e, ast.Slice):
+            return slice(self.ev(e.lower, scopes) if e.lower else None, self.ev(e.upper, scopes) if e.upper else None, self.ev(e.step, scopes) if e.step else None)
+        if isinstance(e, ast.Call):
+            f = self.ev(e.func, scopes)
+            args = []
+            for a in e.args:
+                if isinstance(a, ast.Starred):
+                    args.extend(self.ev(a.value, scopes))
+                else:
+                    args.append(self.ev(a, scopes))
+            kwargs = {}
+            for k in e.keywords:
+                if k.arg is None:
+                    kwargs.update(self.ev(k.value, scopes))
+                else:
+                    kwargs[k.arg] = self.ev(k.value, scopes)
+            if f is None:
+                raise AnalysisError(f"interp: call of an unmodelled callee {src(e.func)}")
+            self.tick()
+            return f(*args, **kwargs)
+        if isinstance(e, ast.Compare):
+            left = self.ev(e.left, scopes)
+            for op, c in zip(e.ops, e.comparators):
+                right = self.ev(c, scopes)
+                if not _CMPOPS[type(op)](left, right):
+                    return False
+                left = right
+            return True
+        if isinstance(e, ast.BoolOp):
+            v = None
+            for x in e.values:
+                v = self.ev(x, scopes)
+                if (isinstance(e.op, ast.And) and not v) or (isinstance(e.op, ast.Or) and v):
+                    return v
+            return v
+        if isinstance(e, ast.UnaryOp):
+            v = self.ev(e.operand, scopes)
+            return {ast.Not: _op.not_, ast.USub: _op.neg, ast.UAdd: _op.pos, ast.Invert: _op.invert}[type(e.op)](v)
+        if isinstance(e, ast.BinOp):
+            return _BINOPS[type(e.op)](self.ev(e.left, scopes), self.ev(e.right, scopes))
+        if isinstance(e, ast.IfExp):
+            return self.ev(e.body, scopes) if self.ev(e.test, scopes) else self.ev(e.orelse, scopes)
+        if isinstance(e, ast.Tuple):
+            return tuple(self._elts(e.elts, scopes))
+        if isinstance(e, ast.List):
+            return list(self._elts(e.elts, scopes))
+        if isinstance(e, ast.Set):
+            return set(self._elts(e.elts, scopes))
+        if isinstance(e, ast.Dict):
+            out = {}
+            for k, v in zip(e.keys, e.values):
+                if k is None:
+                    out.update(self.ev(v, scopes))
+                else:
+                    out[self.ev(k, scopes)] = self.ev(v, scopes)
+            return out
+        if isinstance(e, ast.Lambda):
+            return Func(self, e, scopes)
+        if isinstance(e, ast.JoinedStr):
+            parts = []
+            for v in e.values:
+                if isinstance(v, ast.Constant):
+                    parts.append(str(v.value))
+                else:
+                    x = self.ev(v.value, scopes)
+                    x = {-1: lambda y: y, 115: str, 114: repr, 97: ascii}[v.conversion](x)
+                    parts.append(format(x, self.ev(v.format_spec, scopes) if v.format_spec is not None else ""))
+            return "".join(parts)
+        if isinstance(e, (ast.ListComp, ast.SetComp, ast.GeneratorExp, ast.DictComp)):
+            out = []
+            local: Dict[str, object] = {}
+            sc = scopes + [local]
+
+            def rec(i):
+                if i == len(e.generators):
+                    out.append((self.ev(e.key, sc), self.ev(e.value, sc)) if isinstance(e, ast.DictComp) else self.ev(e.elt, sc))
+                    return
+                g = e.generators[i]
+                for v in self.ev(g.iter, sc):
+                    self.tick()
+                    self.assign(g.target, v, sc)
+                    if all(self.ev(c, sc) for c in g.ifs):
+                        rec(i + 1)
+            rec(0)
+            if isinstance(e, ast.DictComp):
+                return dict(out)
+            return set(out) if isinstance(e, ast.SetComp) else out
+        if isinstance(e, ast.NamedExpr):
+            v = self.ev(e.value, scopes)
+            self.assign(e.target, v, scopes)
+            return v
+        if isinstance(e, ast.Starred):
+            raise AnalysisError("interp: starred expression")
+        raise AnalysisError(f"interp: expression not modelled: {type(e).__name__} {src(e)[:50]}")
+
+    def _elts(self, elts, scopes):
+        out = []
+        for x in elts:
+            if isinstance(x, ast.Starred):
+                out.extend(self.ev(x.value, scopes))
+            else:
+                out.append(self.ev(x, scopes))
+        return out
+
+
+class Mock:
+    """Opaque collaborator for the interpreter: attribute access yields child mocks, calls are logged
+    (shared ``log``) and answered by ``returns[name]`` (value or callable) or a fresh child mock."""
+    _interp_mutable = True
+
+    def __init__(self, name, log=None, returns=None):
+        object.__setattr__(self, "_name", name)
+        object.__setattr__(self, "_log", log if log is not None else [])
+        object.__setattr__(self, "_returns", returns or {})
+
+    def __getattr__(self, attr):
+        if attr.startswith("__"):
+            raise AttributeError(attr)
+        child = Mock(f"{self._name}.{attr}", self._log, self._returns)
+        object.__setattr__(self, attr, child)
+        return child
+
+    def __call__(self, *args, **kwargs):
+        self._log.append((self._name, args, kwargs))
+        if self._name in self._returns:
+            r = self._returns[self._name]
+            return r(*args, **kwargs) if callable(r) else r
+        return Mock(self._name + "()", self._log, self._returns)
+
+    def __repr__(self):
+        return f"<{self._name}>"
+
+
+def freeze(v):
+    if isinstance(v, dict):
+        return tuple(sorted(((freeze(k), freeze(x)) for k, x in v.items()), key=repr))
+    if isinstance(v, (list, tuple)):
+        return tuple(freeze(x) for x in v)
+    if isinstance(v, set):
+        return tuple(sorted((freeze(x) for x in v), key=repr))
+    if isinstance(v, Obj):
+        return ("obj", v.cls.node.name, freeze(v.attrs))
+    if isinstance(v, (str, int, float, bool, type(None), bytes)):
+        return v
+    return repr(v)
